@@ -1,4 +1,5 @@
 """C05 — evaluation is invariant to batching and padding (metric monoid)."""
+import itertools
 import json
 import random
 from fractions import Fraction
@@ -102,6 +103,22 @@ def gen_junk(rng, w):
   return e
 
 
+def _apply_for_eval(params, batch):
+  """the "model": predictions are features of the batch (one function object shared by every Model)"""
+  return {'p': batch['p'], 'ps': batch['ps']}
+
+
+def reconfigure(rng, spec, C):
+  """Another configuration of the same metric class with the same statistic structure/shape."""
+  n = spec[0]
+  if n == 'pd':
+    return ['pd', reconfigure(rng, spec[1], C), spec[2]]
+  new = ml.gen_base_spec(rng, n, C)
+  if n in ('stce', 'stacc', 'sttopk', 'oov'):
+    new[-1] = spec[-1]                                   # per_position decides the shape
+  return new
+
+
 class C05(core.Property):
   ID = 'C05'
   RULE = ('eval cases = (metric bundle: every built-in metric class incl. per-position, PerDomain and '
@@ -110,7 +127,9 @@ class C05(core.Property):
           'in-domain content — half of it extreme finite float32 scores up to ~3e38 with mixed signs, whose '
           'per-example loss statistics are +inf —, batches without a mask feature, fully masked batches); stat cases = raw '
           'MeanStat/SumStat new/merge/reduce/result on dyadic values incl. values outside the domain; '
-          'monoid monitor = the real unreduced single-example statistics of the bundle merged directly (no-zero, '
+          'the batches are also passed as tuple / generator / iter / map / chain / PaddedBatchView; twin cases = two '
+          'Models sharing functions and metric names but differently configured metrics; big cases = one batch of '
+          '4097..9000 rows; monoid monitor = the real unreduced single-example statistics of the bundle merged directly (no-zero, '
           'right, tree folds, swapped/regrouped operands, zero on either side, reduce of the stack); '
           'non-trivial = at least one real example and (more than one batch or a masked row); distinct by digest')
   TRUSTED = ['per-example statistics are taken from the real evaluate_example (under vmap, spot-checked '
@@ -140,14 +159,19 @@ class C05(core.Property):
   def _pkey(self, spec):
     return 'ps' if ml.is_seq(spec) else 'p'
 
-  def _bundle(self, specs):
-    key = json.dumps(specs)
+  def _bundle(self, specs, base=None):
+    """metrics, Model, jitted per-example statistics, ModelEvaluator for a list of specs.  All Models share
+    the same function objects and the metric names '0', '1', …; with `base` (another spec list) the Model is
+    `Model(base).replace(eval_metrics=…)`, as a user re-configuring the metrics of a model would build it."""
+    key = json.dumps([specs, base])
     if key not in self._bundles:
       M, models, jax = self.M, self.models, self.jax
       metrics = {str(i): ml.build_metric(M, s, self._tkey(s), self._pkey(s), 'd') for i, s in enumerate(specs)}
-      model = models.Model(init=None, apply_for_train=None,
-                           apply_for_eval=lambda params, batch: {'p': batch['p'], 'ps': batch['ps']},
-                           train_loss=None, eval_metrics=metrics)
+      if base is None:
+        model = models.Model(init=None, apply_for_train=None, apply_for_eval=_apply_for_eval,
+                             train_loss=None, eval_metrics=metrics)
+      else:
+        model = self._bundle(base)[1].replace(eval_metrics=metrics)
 
       def per_example(batch):
         pred = {'p': batch['p'], 'ps': batch['ps']}
@@ -175,6 +199,32 @@ class C05(core.Property):
           base = rng.choice([s for s in specs if ml.is_per_position(s)])
           yield {'kind': 'pdpp', 'w': w, 'spec': ['pd', base, rng.choice([d for d in (1, 2, 3, 4, 5) if d != w['L']])],
                  'examples': [gen_example(rng, w) for _ in range(rng.randrange(1, 4))], 'size': rng.choice(sizes)}
+    # two differently configured Models sharing functions and metric names, both evaluation orders
+    w = worlds[0]
+    for order in (['A', 'B', 'A'], ['B', 'A', 'B']) if tier != 'thorough' else (['A', 'B', 'A'], ['B', 'A', 'B']) * 3:
+      names = rng.sample(['stacc', 'sttopk', 'oov', 'count', 'len', 'trunc', 'sce', 'stce', 'topk', 'scount'], 5)
+      specs_a = [ml.gen_base_spec(rng, nm, w['C']) for nm in names]
+      specs_a.append(['pd', specs_a[0], w['Dpp'] if ml.is_per_position(specs_a[0]) else w['D']])
+      for _ in range(20):
+        specs_b = [reconfigure(rng, sp, w['C']) for sp in specs_a]
+        if all(x != y for x, y in zip(specs_a[:3], specs_b[:3])):
+          break
+      exs = [gen_example(rng, w) for _ in range(rng.randrange(3, 9))]
+      size = 4
+      idx = list(range(len(exs)))
+      batches = [{'rows': idx[i:i + size] + [None] * (size - len(idx[i:i + size])), 'mask': True}
+                 for i in range(0, len(idx), size)]
+      yield {'kind': 'twin', 'w': w, 'specsA': specs_a, 'specsB': specs_b, 'examples': exs, 'batches': batches,
+             'junk_seed': rng.randrange(10 ** 6), 'order': order}
+    # single batches of several thousand rows (evaluate_batch over more rows than any block size)
+    big_specs = [['acc'], ['cm', w['C']], ['ce'], ['pd', ['acc'], w['D']], ['stacc', [0], None, True]]
+    big_sizes = [4097, 4500, 9000]
+    n_big = rng.choice(big_sizes)
+    for n in ([n_big] if tier != 'thorough' else big_sizes):
+      for mode in ('all', 'prefix', 'random', 'none'):
+        n_real = rng.randrange(n - (n % 4096) + 1, n) if n % 4096 > 1 else n - 0
+        yield {'kind': 'big', 'w': w, 'specs': big_specs, 'n': n, 'n_real': n_real, 'mask': mode,
+               'seed': rng.randrange(10 ** 6)}
     # stat cases: the model is asked once for all of them (one driver process instead of one per case)
     stat_cases = [self._stat_case(rng) for _ in range(n_stat)]
     lines = [l for c in stat_cases for l in self._stat_lines(c)]
@@ -242,7 +292,15 @@ class C05(core.Property):
 
   # ------------------------------------------------------------------ shrinking
   def shrink(self, case):
-    if case['kind'] == 'stat':
+    if case['kind'] in ('stat', 'big'):
+      return
+    if case['kind'] == 'twin':
+      for i in range(len(case['specsA'])):
+        if len(case['specsA']) > 1:
+          yield {**case, 'specsA': case['specsA'][:i] + case['specsA'][i + 1:],
+                 'specsB': case['specsB'][:i] + case['specsB'][i + 1:]}
+      if len(case['batches']) > 1:
+        yield {**case, 'batches': case['batches'][:1]}
       return
     if case['kind'] == 'pdpp':
       if len(case['examples']) > 1:
@@ -361,7 +419,119 @@ class C05(core.Property):
       return self._evaluate_stat(case, ctx)
     if case['kind'] == 'pdpp':
       return self._evaluate_pdpp(case, ctx)
+    if case['kind'] == 'twin':
+      return self._evaluate_twin(case, ctx)
+    if case['kind'] == 'big':
+      return self._evaluate_big(case, ctx)
     return self._evaluate_eval(case, ctx)
+
+  def _evaluate_twin(self, case, ctx):
+    """Two Models with the same functions and metric names but differently configured metrics
+    (model.replace(eval_metrics=…)), evaluated one after the other on the same batches, each against the
+    merge of its own single-example statistics."""
+    variants = {'A': (case['specsA'], None), 'B': (case['specsB'], case['specsA'])}
+    outs = []
+    for which in case['order']:
+      specs, base = variants[which]
+      sub = {'kind': 'eval', 'w': case['w'], 'specs': specs, 'examples': case['examples'],
+             'batches': case['batches'], 'junk_seed': case['junk_seed']}
+      if base is not None:
+        sub['twin_base'] = base
+      o = self._evaluate_eval(sub, ctx)
+      outs.append((which, o))
+    problems = [f'model {which} (evaluated #{i + 1} of {"".join(case["order"])}): {o.oracle_fail}'
+                for i, (which, o) in enumerate(outs) if o.oracle_fail]
+    corr = [f'model {which}: {o.corr_fail}' for which, o in outs if o.corr_fail]
+    ctx.count('twin_model_evaluations', len(outs))
+    return Outcome(oracle_fail='; '.join(problems[:2]) or None, corr_fail='; '.join(corr[:2]) or None,
+                   nontrivial=True, tags=('twin-models', 'order=' + ''.join(case['order'])), key='C05/twin-models',
+                   detail={'specsA': case['specsA'], 'specsB': case['specsB']})
+
+  def _evaluate_big(self, case, ctx):
+    """One batch of several thousand rows for a cheap metric set, against a vectorised numpy merge of the
+    single-example statistics of its real rows."""
+    jnp, M, models, cds, jax = self.jnp, self.M, self.models, self.cds, self.jax
+    w, n = case['w'], case['n']
+    C, L = w['C'], w['L']
+    specs = case['specs']
+    metrics, model, per_example, evaluator = self._bundle(specs)
+    r = np.random.RandomState(case['seed'])
+    b = {'y': r.randint(0, C, (n,)).astype(np.int32), 'ys': r.randint(0, C, (n, L)).astype(np.int32),
+         'p': r.randint(-3, 4, (n, C)).astype(np.float32), 'ps': r.randint(-3, 4, (n, L, C)).astype(np.float32),
+         'd': r.randint(0, min(w['D'], w['Dpp']), (n,)).astype(np.int32)}
+    mode = case['mask']
+    if mode == 'none':
+      mask = None
+    elif mode == 'all':
+      mask = np.ones(n, dtype=bool)
+    elif mode == 'prefix':
+      mask = np.arange(n) < case['n_real']
+    else:
+      mask = r.rand(n) < 0.7
+      mask[-1] = True
+    real = np.ones(n, dtype=bool) if mask is None else mask
+    stats = per_example({k: jnp.asarray(v) for k, v in b.items()})
+    if mask is not None:
+      b[cds.EXAMPLE_MASK_KEY] = mask
+    problems = []
+    impl = {}
+    try:
+      impl['evaluate_model'] = models.evaluate_model(model, None, [b])
+      impl['ModelEvaluator'] = dict(evaluator.evaluate_global_params(None, [(b'c', [b])]))[b'c']
+    except Exception as e:   # pylint: disable=broad-except
+      problems.append(f'evaluate_model / ModelEvaluator raised {exc_enum(e)}: {str(e)[:100]}')
+    pred = {'p': b['p'], 'ps': b['ps']}
+    lines = []
+    for k, spec in enumerate(specs):
+      k = str(k)
+      name = ml.name_of(spec)
+      kind = 'sum' if ml.is_sum(spec) else 'mean'
+      shape = ml.stat_shape(spec, L)
+      loss = ml.is_loss(spec)
+      sa = ml.stat_arrays(stats[k])
+      acc = sa[1].reshape((n,) + tuple(shape))[real].sum(axis=0)
+      absum = np.abs(sa[1].reshape((n,) + tuple(shape))[real]).sum(axis=0)
+      if kind == 'mean':
+        wt = np.broadcast_to(sa[2].reshape(sa[2].shape + (1,) * (len(shape) - (sa[2].ndim - 1))), (n,) + tuple(shape))
+        wsum = wt[real].sum(axis=0)
+        want = np.where(wsum != 0, acc / np.where(wsum != 0, wsum, 1), 0.0)
+        scale = absum / np.where(wsum != 0, wsum, 1)
+      else:
+        want, scale = acc, absum
+      tol = (1e-5 * scale + 1e-4 * np.abs(want) + 1e-6) if loss else 1e-6 * np.maximum(1.0, np.abs(want))
+      try:
+        st = M.evaluate_batch(metrics[k], b, pred, None if mask is None else mask)
+        impl_k = {'evaluate_batch': np.asarray(st.result(), dtype=np.float64)}
+        ga = ml.lead_broadcast(ml.stat_arrays(st)[1], shape)
+        if np.any(np.abs(ga - acc) > ((1e-5 * absum + 1e-4 * np.abs(acc) + 1e-6) if loss else 0.0)):
+          problems.append(f'{name}: evaluate_batch on {n} rows: accum {ga.reshape(-1)[:4].tolist()} but the '
+                          f'{int(real.sum())} real rows sum to {acc.reshape(-1)[:4].tolist()}')
+      except Exception as e:   # pylint: disable=broad-except
+        problems.append(f'{name}: evaluate_batch on {n} rows raised {exc_enum(e)}: {str(e)[:100]}')
+        impl_k = {}
+      for how, res in impl.items():
+        impl_k[how] = np.asarray(res[k], dtype=np.float64)
+      for how, got in impl_k.items():
+        got = ml.lead_broadcast(got, shape)
+        if not np.all(np.isfinite(got)) or np.any(np.abs(got - want) > tol):
+          problems.append(f'{name}: {how} on one batch of {n} rows ({int(real.sum())} real) gives '
+                          f'{got.reshape(-1)[:4].tolist()}, merging the single-example statistics gives '
+                          f'{want.reshape(-1)[:4].tolist()}')
+      if shape == () and kind == 'mean' and not loss:
+        # model: per-row statistics as data (scalar count-valued metrics only, to keep the line small)
+        rows = [[[Fraction(float(a)), Fraction(float(x))]] for a, x in zip(sa[1].reshape(-1), wt.reshape(-1))]
+        lines.append((k, name, want, line('c05.evalbatch_s', 'mean', 1, rows, None if mask is None else mask.tolist())))
+    corr = []
+    if lines:
+      for (k, name, want, _), ans in zip(lines, ctx.drv.ask([l for *_, l in lines])):
+        if abs(float(ans[2][0]) - float(want)) > 1e-6:
+          corr.append(f'{name}: model {ans[2][0]} vs reference {want}')
+        elif 'evaluate_model' in impl and abs(float(impl['evaluate_model'][k]) - float(ans[2][0])) > 1e-6:
+          corr.append(f'{name}: evaluate_model {impl["evaluate_model"][k]} vs model {ans[2][0]}')
+    ctx.count('big_batches')
+    return Outcome(oracle_fail='; '.join(problems[:3]) or None, corr_fail='; '.join(corr[:2]) or None,
+                   nontrivial=True, tags=('big-batch', f'rows={n}', 'mask=' + mode), key='C05/big-batch',
+                   detail={'rows': n, 'real': int(real.sum())})
 
   # ---- reference merge (numpy float64), independent of fedjax's merge/reduce
   @staticmethod
@@ -387,7 +557,7 @@ class C05(core.Property):
     jnp, M, models, cds = self.jnp, self.M, self.models, self.cds
     w, specs = case['w'], case['specs']
     L = w['L']
-    metrics, model, per_example, evaluator = self._bundle(specs)
+    metrics, model, per_example, evaluator = self._bundle(specs, case.get('twin_base'))
     problems, corr = [], []
     detail = {}
     conc = self._concrete(case)
@@ -433,11 +603,37 @@ class C05(core.Property):
                                 for k, v in models.evaluate_model(model, None, batches).items()}
     except Exception as e:   # pylint: disable=broad-except
       problems.append(f'evaluate_model raised {exc_enum(e)}: {str(e)[:100]}')
+    # the same batches handed over as other kinds of iterables (re-iterable and one-shot) must give the same
+    forms = {'tuple': lambda: tuple(batches), 'generator': lambda: (b for b in batches),
+             'iter(list)': lambda: iter(batches), 'map': lambda: map(lambda b: b, batches),
+             'itertools.chain': lambda: itertools.chain(batches[:1], batches[1:])}
+    form_rng = random.Random(case.get('junk_seed', 0) + 2)
+    picked = form_rng.sample(sorted(forms), 2) if ctx.tier == 'quick' else sorted(forms)
+    for how in picked:
+      try:
+        impl[f'evaluate_model({how})'] = {k: np.asarray(v, dtype=np.float64)
+                                          for k, v in models.evaluate_model(model, None, forms[how]()).items()}
+      except Exception as e:   # pylint: disable=broad-except
+        problems.append(f'evaluate_model({how}) raised {exc_enum(e)}: {str(e)[:100]}')
+    ctx.count('iterable_forms', len(picked))
+    if 'padded_batch' in case and form_rng.random() < 0.5:
+      # the PaddedBatchView itself (zero padding, original order): same examples, hence the same result
+      pb = case['padded_batch']
+      view = cds.ClientDataset(self._arrays(case['examples'], w)).padded_batch(
+          batch_size=pb['bs'], num_batch_size_buckets=pb['B'])
+      try:
+        impl['evaluate_model(PaddedBatchView)'] = {k: np.asarray(v, dtype=np.float64)
+                                                   for k, v in models.evaluate_model(model, None, view).items()}
+        ctx.count('padded_batch_view_forms')
+      except Exception as e:   # pylint: disable=broad-except
+        problems.append(f'evaluate_model(PaddedBatchView) raised {exc_enum(e)}: {str(e)[:100]}')
     try:
       rev = list(reversed(batches))
-      res = dict(evaluator.evaluate_global_params(None, [(b'fwd', batches), (b'rev', rev)]))
+      res = dict(evaluator.evaluate_global_params(
+          None, [(b'fwd', batches), (b'rev', rev), (b'gen', (b for b in batches))]))
       impl['ModelEvaluator'] = {k: np.asarray(v, dtype=np.float64) for k, v in res[b'fwd'].items()}
       impl['ModelEvaluator/reversed'] = {k: np.asarray(v, dtype=np.float64) for k, v in res[b'rev'].items()}
+      impl['ModelEvaluator(generator)'] = {k: np.asarray(v, dtype=np.float64) for k, v in res[b'gen'].items()}
     except Exception as e:   # pylint: disable=broad-except
       problems.append(f'ModelEvaluator raised {exc_enum(e)}: {str(e)[:100]}')
     # evaluate_batch called directly on a few metrics, statistics merged by the real merge from zero()
